@@ -53,7 +53,7 @@ PROPS['C01'] = {
     'parts': split('harness/list.cpp', 'C01/', 1, 4, ['g17'], ['g17O0']),
     'rule': 'explicit-state BFS over histories of the flat CallbackList/EventDispatcher alphabet (append, prepend, insert before slot/empty handle, remove slot, ownsHandle, empty, invoke with 2 argument sets, forEach x2, forEachIf stop-after 0/1/2, eventutil has/remove); a state is model + private-link snapshot, canonical up to renaming; distinct = distinct per-execution observation hashes',
     'assumptions': H_ASSUME,
-    'bounds': {'quick': 'K=4 live callbacks, 4 handle slots (live/stale/empty/reused), BFS depth 7-8 per unit', 'thorough': 'same caps, BFS to fixpoint (frontier empty) or depth 14'},
+    'bounds': {'quick': 'K=4 live callbacks (dispatcher: 3 over 2 events), 4 handle slots (live/stale/empty/reused), BFS depth 5-8 per unit', 'thorough': 'BFS to fixpoint (frontier empty, reached at depth 18-27), also with K=5 and K=6 (dispatcher K=4)'},
 }
 
 PROPS['C02'] = {
@@ -62,7 +62,7 @@ PROPS['C02'] = {
     'parts': split('harness/list.cpp', 'C02/', 2, 4, ['g17']),
     'rule': 'BFS over histories where every callback invoked takes PROG choices (append, prepend, insert before self/slot, remove self/slot, ownsHandle self/slot, forEach, empty, nested invoke up to depth 3) with a per-step budget B of actions; all PROG choice sequences within B are enumerated for every state; search continues from the resulting (possibly odd-looking) states',
     'assumptions': H_ASSUME,
-    'bounds': {'quick': 'K=3, B=2 (vmutex/single) or 1 (spinlock/std::mutex/dispatcher), depth 4', 'thorough': 'K=3, B=3 / 2, depth 5'},
+    'bounds': {'quick': 'K=3, per-step budget B=2 (vmutex/single) or 1 (spinlock/std::mutex/dispatcher), depth 4', 'thorough': 'B=2 depth 6 (list), B=3 depth 3-4, spinlock/std::mutex/dispatcher B=2 depth 5'},
     'stall': 20,
 }
 
@@ -72,7 +72,7 @@ PROPS['C19'] = {
     'parts': split('harness/list.cpp', 'C19/', 19, 2, ['g17'], ['g17O0']),
     'rule': 'the C01/C02 search with currentCounter preset to UINT_MAX-p for every p in 0..6 and the absolute distance-to-wrap in the state key, so the wrap happens before, at and after every position of every explored history (also inside nested invocations)',
     'assumptions': H_ASSUME + ['currentCounter is placed through private access (the suite does the same through #define private public)'],
-    'bounds': {'quick': 'K=3, B=1, depth = preset+3 (<=8)', 'thorough': 'K=3, B=2, depth 9'},
+    'bounds': {'quick': 'K=3, B=1, depth = preset+4 (<=9); pools of 3 lists depth 5', 'thorough': 'K=3, B=2, depth 10-11; pools depth 8'},
 }
 
 PROPS['C08'] = {
@@ -81,7 +81,7 @@ PROPS['C08'] = {
     'parts': split('harness/list.cpp', 'C08/', 8, 2, ['g17']),
     'rule': 'the C01/C02/C05/C10 searches re-run with the live-instance ledger as the only oracle: at every quiescent point the number of live callback/payload objects per id equals what the model says the containers hold; nothing alive after destruction; no double destruction or use after destruction',
     'assumptions': H_ASSUME,
-    'bounds': {'quick': 'as C02/C05/C10 quick', 'thorough': 'as C02/C05/C10 thorough'},
+    'bounds': {'quick': 'as C02/C05/C10 quick (list B=2 depth 4, queue depth 4-5, pools depth 5, fault runs depth 4-5)', 'thorough': 'list B=2 depth 5-6, queue flat to fixpoint and nested budget 2 depth 4, pools depth 8, fault runs depth 7-10'},
 }
 
 S_ASSUME = [
@@ -138,7 +138,7 @@ PROPS['C05'] = {
     'parts': split('harness/queue.cpp', 'C05/', 5, 4, ['g17'], ['g17O0']),
     'rule': 'BFS over histories of {enqueue (both argument-passing forms, 2 keys), process, processOne, processIf x4 predicates, processUntil x4 predicates, peekEvent, takeEvent, takeEvent+dispatch(QueuedEvent), clearEvents, emptyQueue+waitFor(0), appendListener, removeListener slot}; listeners and predicates take PROG choices (enqueue, listener changes, emptyQueue, peek, nested process/processOne/clearEvents/takeEvent); lock-step model predicts the next callback (listener with event, or predicate) at every moment; state key includes free-list length and both counters; payload taken by the prototype as const&, by value, or a move-only type (no peekEvent there)',
     'assumptions': H_ASSUME,
-    'bounds': {'quick': 'K=3 pending, <=2 listeners, flat depth 5-6, nested budget 1 depth 4', 'thorough': 'flat to fixpoint or depth 30, nested budget 2 depth 5'},
+    'bounds': {'quick': 'K=3 pending (2 in nested units), <=2 listeners, flat depth 4-5, nested budget 1 depth 4; arity matrix N=0..8; 4 type-matrix cells', 'thorough': 'flat to fixpoint (reached at depth 20), nested budget 2 depth 4; 13 type-matrix cells per key type under g++ and clang++'},
 }
 PROPS['C13'] = {
     'title': 'OrderedQueueList processes events in comparator order, stably, exactly once',
@@ -146,7 +146,7 @@ PROPS['C13'] = {
     'parts': split('harness/queue.cpp', 'C13/', 13, 3, ['g17'], ['g17O0']),
     'rule': 'the C05 search with QueueList = OrderedQueueList and comparators ascending key / descending key / key mod 2 (large equivalence classes) over keys {1,2,3} with duplicates; the model keeps its deque stably sorted (declined events re-enter ahead of equal newer ones)',
     'assumptions': H_ASSUME,
-    'bounds': {'quick': 'K=3 (4 for mod-2) pending, flat depth 5, nested budget 1 depth 4', 'thorough': 'flat to fixpoint or depth 30, nested budget 2 depth 5'},
+    'bounds': {'quick': 'K=3 (4 for mod-2) pending, flat depth 5, nested budget 1 depth 4', 'thorough': 'flat to fixpoint (depth 20) for K=3; mod-2 classes with K=4 to depth 9; nested budget 2 depth 4'},
 }
 PROPS['C08']['parts'] += split('harness/queue.cpp', 'C08/', 8, 2, ['g17'])
 PROPS['C08']['parts'] += [{'src': 'harness/faults.cpp', 'prefix': 'C08/', 'variants': ['g17'], 'quick_variants': ['g17O0'], 'defs': ['VERIF_PREFIX="C08/under-faults"', 'VERIF_SUB=%d' % i], 'only_sigs': 'leak|ledger|fatal'} for i in (0, 2, 4)]
@@ -171,7 +171,7 @@ PROPS['C10'] = {
     'parts': [{'src': 'harness/pool.cpp', 'prefix': 'C10/', 'variants': ['g17'], 'quick_variants': ['g17O0'], 'defs': ['VERIF_SUB=%d' % i]} for i in range(6)],
     'rule': 'BFS over histories on a pool of 3 objects of one type (CallbackList, EventDispatcher, EventQueue, HeterCallbackList, HeterEventDispatcher, HeterEventQueue, dispatcher/queue with MixinFilter) placed into storage pre-filled with 0xFF/0x00/0xA5: default/copy/move construction, copy/move assignment (incl. self copy-assign), member and ADL swap (incl. self), destroy, add, remove by position (handle obtained from forEach), churn (generation counters pushed apart), trigger with one nested action, enqueue/process/wait, appendFilter; after every operation every live object is triggered and compared with the model; fresh copies/moves of queues must report empty and work; ledger of callback copies',
     'assumptions': H_ASSUME + ['after a move the source only has to stay valid: the model adopts what it shows', 'whether filters travel with swap is left open (member swap exchanges the listener map only, std::swap moves everything): the model adopts what each object shows'],
-    'bounds': {'quick': 'pool of 3, K=2 listeners per object, prior memory 0xFF, depth 5, one nested action', 'thorough': 'all three memory patterns, depth 7, plus near-wrap generation counters'},
+    'bounds': {'quick': 'pool of 3, K=2 listeners per object, prior memory 0xFF, depth 5, one nested action', 'thorough': 'all three memory patterns, depth 8, plus near-wrap generation counters'},
 }
 
 PROPS['C15'] = {
@@ -190,7 +190,7 @@ PROPS['C14'] = {
     'parts': [{'src': 'harness/heter.cpp', 'prefix': 'C14/', 'variants': ['g17'], 'quick_variants': ['g17O0'], 'defs': ['VERIF_SUB=%d' % i]} for i in range(4)],
     'rule': 'BFS over histories on HeterCallbackList / HeterEventDispatcher (2 keys) / HeterEventQueue with prototypes void(int), void(const std::string&), void(const Big&) (72-byte tracked struct), void(): append/prepend/insert/remove of callables of each prototype and of a callable matching two prototypes (must bind to the first), invoke/dispatch/enqueue with int, char, std::string, const char*, Big, nothing; process, processOne, clearEvents, processIf with a predicate over each prototype x {accept, refuse, odd}; free-list length in the key so recycled slots of another prototype are reached; ASan/UBSan fatal; plus the include-event mode with a std::string key passed as lvalue/const lvalue/prvalue/std::move',
     'assumptions': H_ASSUME + ['predicates callable with several prototypes are not in the alphabet (the property states nothing about their order)'],
-    'bounds': {'quick': 'K=3 pending, <=3 listeners, depth 4-5', 'thorough': 'depth 6-8'},
+    'bounds': {'quick': 'K=3 pending, <=3 listeners, depth 4-5; arity matrix; overlapping prototypes; include-mode key categories', 'thorough': 'HeterCallbackList depth 10, HeterEventDispatcher depth 7, HeterEventQueue depth 8'},
 }
 
 PROPS['C04'] = {
@@ -201,7 +201,7 @@ PROPS['C04'] = {
            + [{'src': 'harness/dispatch.cpp', 'prefix': 'C04/', 'variants': ['g17', 'c17'], 'defs': ['VERIF_SUB=%d' % i, 'VERIF_FULL=1'], 'tier': 'thorough'} for i in range(5)],
     'rule': 'type matrix of EventDispatcher instantiations: key type {int, enum class, std::string beyond SSO, struct with <, struct with std::hash and ==} x how the prototype takes key and payload {by value, const&, payload &} x ArgumentPassingMode {auto, include, exclude} (both dispatch forms) x getEvent {default, policy reading a field of the argument that a move clears} x Map {default ordered/hashed, user template}; in each cell a BFS over listener histories (append/prepend/remove on 3 keys, listeners alternately taking arguments by value and by reference) with dispatch of every key in 6 call-site value-category combinations; g++ (right-to-left argument evaluation) and clang++ (left-to-right)',
     'assumptions': H_ASSUME + ['the matrix is a covering selection of the full product (4 cells per key type in the quick tier, 13 in the thorough tier), not the full product'],
-    'bounds': {'quick': '20 cells under g++ + 4 under clang++, <=3 listeners, depth 3', 'thorough': '65 cells x {g++, clang++}, depth 4'},
+    'bounds': {'quick': '24 cells under g++ + 6 under clang++, <=3 listeners, depth 3', 'thorough': '85 cells x {g++, clang++}, depth 5'}, depth 4'},
     'per_variant_sigs': True,
 }
 
@@ -213,7 +213,7 @@ PROPS['C09'] = {
     'rule': 'BFS over small states of CallbackList, EventDispatcher with a throwing key type (std::map and std::unordered_map), EventQueue (plain, OrderedQueueList with a throwing comparator, MixinFilter), HeterCallbackList/HeterEventDispatcher, HeterEventQueue (int and throwing-payload prototypes), and ScopedRemover/CounterRemover/ConditionalRemover adds; in every state every operation is executed once per fault point with exactly that point failing (replaced global operator new -> std::bad_alloc; callback copy/invoke, key copy/compare/hash, argument copy/move/assign, predicate, filter, comparator, enumeration functor -> injected exception); the number of fault points per operation is discovered, not assumed; after each injected run: exception type at the caller, container vs the unchanged (or per-guarantee) model by observation, ledger, emptiness/waiting, then the search continues from the post-fault state (faults in succession); distinct = distinct (observation, fault site) outcome hashes',
     'assumptions': ['bounded: <=3 callbacks / <=3 pending events, BFS depth as stated', 'fault points inside destructors and inside noexcept standard-library internals are not injected (the language forbids throwing there)',
                     'std::terminate is trapped and reported as a violation', 'guarantee per operation as in the property: strong for listener management (also through the removers), enqueue, peekEvent, callback-list copy assignment; source untouched + destination valid for copies; callbacks\' own effects stand for invocations; only taken-out events lost for process*; no leak + usable for the rest'],
-    'bounds': {'quick': 'depth 3, one fault per operation (pairs arise across consecutive operations)', 'thorough': 'depth 4-5, up to two faults inside one operation'},
+    'bounds': {'quick': '<=3 callbacks / <=3 pending events, depth 4-5, one fault per operation (pairs arise across consecutive operations)', 'thorough': '<=4 callbacks / <=4 pending, depth 7-10 (fixpoint reached earlier in most units), up to two faults inside one operation'},
     'technique': 'exhaustive fault enumeration: every k-th fault point of every operation in every reachable small state, on the real code, explored by the choice-tree explorer',
 }
 
@@ -223,7 +223,7 @@ PROPS['C16'] = {
     'parts': [{'src': 'harness/removers.cpp', 'prefix': 'C16/', 'variants': ['g17'], 'quick_variants': ['g17O0'], 'defs': ['VERIF_SUB=%d' % i]} for i in range(4)],
     'rule': 'BFS over histories on CallbackList, EventDispatcher, EventQueue (trigger = enqueue+process, nested = dispatch), HeterCallbackList, HeterEventDispatcher: add through CounterRemover with n in {1,2,3,0,-1,-2} x {append, prepend, insert}, add through ConditionalRemover with condition outcome sequences {true at 1st/2nd/3rd evaluation, never} x {condition with / without arguments} x {append, prepend}, plain listeners, removal by handle, trigger; the wrapped listener takes PROG choices (re-dispatch the same event up to depth 3, remove itself by handle, remove a neighbour); helper objects are temporaries (destroyed before the first trigger); model: wrapped listener invoked on exactly the first max(n,1) triggers / up to and including the first true condition, condition evaluated exactly once per trigger with the trigger argument',
     'assumptions': H_ASSUME,
-    'bounds': {'quick': '<=3 listeners, <=2 wrapped, depth 4, 1 nested action per step', 'thorough': 'depth 5-6, 2 nested actions per step'},
+    'bounds': {'quick': '<=3 listeners, <=2 wrapped, depth 4, 1 nested action per step', 'thorough': 'depth 6-7, 2 nested actions per step'},
 }
 
 PROPS['C12'] = {
@@ -232,7 +232,7 @@ PROPS['C12'] = {
     'parts': [{'src': 'harness/filters.cpp', 'prefix': 'C12/', 'variants': ['g17'], 'quick_variants': ['g17O0'], 'defs': ['VERIF_SUB=%d' % i]} for i in range(5)],
     'rule': 'BFS over histories on EventDispatcher/EventQueue with MixinFilter (prototypes taking arguments by value, by mutable reference, by const reference; one and two mixins): appendFilter {pass, block, add-1, block-if-arg==1}, removeFilter, appendListener/removeListener on 2 events, dispatch / enqueue+process/processOne with v in {0,1,2}; the model predicts the exact sequence of filter and listener calls and the value each sees; plus complete enumerations of finite input domains: canContinueInvoking (<=3 listeners of 3 kinds x start value x CallbackList/EventDispatcher), HeterEventDispatcher+MixinHeterFilter (filter kinds x removal x values), conditionalFunctor (4 condition kinds incl. stateful x 5 values) and argumentAdapter (int->long, double->int, Base&->Derived&, shared_ptr<Base>->shared_ptr<Derived>; all three factory overloads)',
     'assumptions': H_ASSUME + ['HeterEventQueue + MixinHeterFilter is not a configuration that compiles on this tree (PrototypeList is private in HeterEventQueueBase), and MixinHeterFilter only compiles for arguments whose lvalue type equals the filter prototype; neither is ranged over'],
-    'bounds': {'quick': '<=3 filters, <=2 listeners, <=2 pending, depth 4-5', 'thorough': 'depth 6-7'},
+    'bounds': {'quick': '<=3 filters, <=2 listeners, <=2 pending, depth 4-5', 'thorough': 'dispatcher depth 9, queue depth 7'},
 }
 
 E_ASSUME = ['finite input domain enumerated completely (no sampling); value alphabet and size range as stated in the rule', 'alignment above alignof(void*) is not part of the domain', 'ASan/UBSan are part of the oracle']
